@@ -265,7 +265,17 @@ var catalogue = []mutation{
 		}
 		p := w.step.Plugins[rapid.IntRange(0, len(w.step.Plugins)-1).Draw(t, "i")]
 		old := p.FullSource()
-		p.Source = rapid.SampledFrom([]string{p.Source + "x", "other-org/" + "replacement#v1", p.Source + "#ref2"}).Draw(t, "newsrc")
+		name, ref, hasRef := strings.Cut(p.Source, "#")
+		suffixed := name + "-buildkite-plugin"
+		if hasRef {
+			suffixed += "#" + ref
+		}
+		short := old != p.Source && strings.HasPrefix(old, "github.com/")
+		p.Source = rapid.SampledFrom([]string{p.Source + "x", "other-org/" + "replacement#v1", p.Source + "#ref2", suffixed}).Draw(t, "newsrc")
+		if p.Source == suffixed {
+			// by the documented rule a short-form name with the suffix appended is another plugin
+			return short
+		}
 		return p.FullSource() != old
 	}},
 	{"plugin-config-change", true, func(t *rapid.T, w *world, _ *auxData) bool {
